@@ -70,6 +70,12 @@ type (
 	sxClosure struct {
 		fn       *ssa.Function
 		bindings []sxVal
+		ssaBind  []ssa.Value // the SSA values bound (for pattern resolution)
+	}
+	sxList   struct{ elems []sxVal } // slice value with known elements (append of literals)
+	sxMapLit struct {                // immutable package-level map literal
+		g          *ssa.Global
+		keys, vals []sxVal
 	}
 	sxFunc    struct{ fn *ssa.Function }
 	sxTuple   struct{ vals []sxVal } // results of an inlined multi-result call
@@ -98,6 +104,14 @@ func (v sxField) key() string     { return "(" + v.x.key() + ")." + v.name }
 func (v sxZero) key() string      { return "zero" }
 func (v sxCall) key() string      { return fmt.Sprintf("call:%s#%d", v.rec.id, v.idx) }
 func (v sxFunc) key() string      { return "func:" + FnName(v.fn) }
+func (v sxMapLit) key() string    { return "maplit:" + short(v.g.Pkg.Pkg.Path()) + "." + v.g.Name() }
+func (v sxList) key() string {
+	parts := make([]string, len(v.elems))
+	for i, a := range v.elems {
+		parts[i] = a.key()
+	}
+	return "list[" + strings.Join(parts, ",") + "]"
+}
 func (v sxTuple) key() string {
 	parts := make([]string, len(v.vals))
 	for i, a := range v.vals {
@@ -150,6 +164,7 @@ type sxCallRec struct {
 	Name     string        // CalleeName, or the resolved method for bound-method values
 	Callee   *ssa.Function // static callee / closure body when resolved on this path
 	Recv     sxVal         // receiver for bound-method values
+	RecvSSA  ssa.Value     // the SSA value of that receiver, where known
 	Args     []sxVal
 	NFacts   int // number of facts established before the call
 	Mem      map[string]sxVal
@@ -357,7 +372,7 @@ func (f *sxFrame) active(fn *ssa.Function) bool {
 }
 
 const (
-	sxInlineDepth  = 5
+	sxInlineDepth  = 7
 	sxInlineBlocks = 60
 )
 
@@ -385,6 +400,58 @@ func sxPathsInline(fn *ssa.Function, tag string, inline func(*ssa.Function) bool
 	type cont func(s *sxState, ret *ssa.Return, results []sxVal)
 	var runBlock func(s *sxState, fr *sxFrame, b, pred *ssa.BasicBlock, k cont)
 	var runInstrs func(s *sxState, fr *sxFrame, b *ssa.BasicBlock, from int, k cont)
+	// branch explores cond == true and cond == false, pruning what the facts
+	// of the path (and library contracts) exclude.
+	branch := func(s *sxState, cond sxVal, each func(ns *sxState, truth bool)) {
+		key, neg, constant, cval := sxCondKey(cond)
+		for i := 0; i < 2; i++ {
+			truth := i == 0
+			if constant {
+				if cval != truth {
+					res.Pruned++
+					continue
+				}
+				each(s.clone(), truth)
+				continue
+			}
+			fv := truth != neg // value of the canonical (positive) condition
+			if old, ok := s.factIdx[key]; ok && old != fv {
+				res.Pruned++
+				continue
+			}
+			// facts implied by library contracts (strings.Cut: !found ⇒ after == "")
+			implied := sxImplied(cond, key, fv)
+			conflict := false
+			for _, f := range implied {
+				if old, ok := s.factIdx[f.Key]; ok && old != f.Val {
+					conflict = true
+				}
+			}
+			for k2, v2 := range s.factIdx {
+				for _, f := range sxImpliedBy(s, k2, v2) {
+					if f.Key == key && f.Val != fv {
+						conflict = true
+					}
+				}
+			}
+			if conflict {
+				res.Pruned++
+				continue
+			}
+			ns := s.clone()
+			if _, ok := ns.factIdx[key]; !ok {
+				ns.factIdx[key] = fv
+				ns.facts = append(ns.facts, sxFact{Key: key, Val: fv, Cond: cond})
+			}
+			for _, f := range implied {
+				if _, ok := ns.factIdx[f.Key]; !ok {
+					ns.factIdx[f.Key] = f.Val
+					ns.facts = append(ns.facts, f)
+				}
+			}
+			each(ns, truth)
+		}
+	}
 	runBlock = func(s *sxState, fr *sxFrame, b, pred *ssa.BasicBlock, k cont) {
 		if res.Err != "" {
 			return
@@ -428,8 +495,7 @@ func sxPathsInline(fn *ssa.Function, tag string, inline func(*ssa.Function) bool
 				return
 			case *ssa.If:
 				cond := s.eval(t.Cond)
-				key, neg, constant, cval := sxCondKey(cond)
-				if !constant {
+				if _, _, constant, _ := sxCondKey(cond); !constant {
 					// loop bound: every undecided branch point at most twice per activation
 					// (branches decided by constants — counted loops over literals — unroll fully)
 					if s.visits[b] >= sxMaxVisits {
@@ -437,54 +503,46 @@ func sxPathsInline(fn *ssa.Function, tag string, inline func(*ssa.Function) bool
 					}
 					s.visits[b]++
 				}
-				for i := 0; i < 2; i++ {
-					truth := i == 0
-					if constant {
-						if cval != truth {
-							res.Pruned++
-							continue
-						}
-						runBlock(s.clone(), fr, b.Succs[i], b, k)
-						continue
+				blk := b
+				branch(s, cond, func(ns *sxState, truth bool) {
+					succ := blk.Succs[1]
+					if truth {
+						succ = blk.Succs[0]
 					}
-					fv := truth != neg // value of the canonical (positive) condition
-					if old, ok := s.factIdx[key]; ok && old != fv {
-						res.Pruned++
-						continue
-					}
-					// facts implied by library contracts (strings.Cut: !found ⇒ after == "")
-					implied := sxImplied(cond, key, fv)
-					conflict := false
-					for _, f := range implied {
-						if old, ok := s.factIdx[f.Key]; ok && old != f.Val {
-							conflict = true
-						}
-					}
-					for k2, v2 := range s.factIdx {
-						for _, f := range sxImpliedBy(s, k2, v2) {
-							if f.Key == key && f.Val != fv {
-								conflict = true
-							}
-						}
-					}
-					if conflict {
-						res.Pruned++
-						continue
-					}
-					ns := s.clone()
-					if _, ok := ns.factIdx[key]; !ok {
-						ns.factIdx[key] = fv
-						ns.facts = append(ns.facts, sxFact{Key: key, Val: fv, Cond: cond})
-					}
-					for _, f := range implied {
-						if _, ok := ns.factIdx[f.Key]; !ok {
-							ns.factIdx[f.Key] = f.Val
-							ns.facts = append(ns.facts, f)
-						}
-					}
-					runBlock(ns, fr, b.Succs[i], b, k)
-				}
+					runBlock(ns, fr, succ, blk, k)
+				})
 				return
+			case *ssa.Lookup:
+				// lookup in an immutable package-level map literal: one path per entry
+				if ml, ok := s.eval(t.X).(sxMapLit); ok {
+					look, blk, next := t, b, idx+1
+					index := s.eval(t.Index)
+					var try func(s *sxState, i int)
+					set := func(s *sxState, v sxVal, found bool) {
+						if look.CommaOk {
+							s.regs[look] = sxTuple{[]sxVal{v, sxConst{ssa.NewConst(constant.MakeBool(found), types.Typ[types.Bool])}}}
+						} else {
+							s.regs[look] = v
+						}
+						runInstrs(s, fr, blk, next, k)
+					}
+					try = func(s *sxState, i int) {
+						if i == len(ml.keys) {
+							set(s, sxZeroOf(look.X.Type().Underlying().(*types.Map).Elem()), false)
+							return
+						}
+						branch(s, sxOp{"==", []sxVal{index, ml.keys[i]}}, func(ns *sxState, truth bool) {
+							if truth {
+								set(ns, ml.vals[i], true)
+							} else {
+								try(ns, i+1)
+							}
+						})
+					}
+					try(s, 0)
+					return
+				}
+				s.exec(in)
 			case *ssa.Return:
 				results := make([]sxVal, len(t.Results))
 				for i, r := range t.Results {
@@ -500,11 +558,38 @@ func sxPathsInline(fn *ssa.Function, tag string, inline func(*ssa.Function) bool
 				var bindings []sxVal
 				if inline != nil && !t.Call.IsInvoke() {
 					// a function literal (bound to a local or applied in place) is a helper like any other
-					if cl, ok := s.eval(t.Call.Value).(sxClosure); ok {
+					switch cl := s.eval(t.Call.Value).(type) {
+					case sxClosure:
 						g, bindings = cl.fn, cl.bindings
 						if strings.HasPrefix(g.Synthetic, "bound method wrapper") {
 							g = nil // exported-API method values stay summarised (resolved in call())
 						}
+					case sxFunc: // a function taken from a table
+						g = cl.fn
+					}
+				}
+				// cmp.Or(a, b, …) of strings: the first non-empty operand
+				if CalleeName(t) == "cmp.Or" && len(t.Call.Args) == 1 && isStringType(t.Type()) {
+					if elems, ok := sxSliceElems(s.eval(t.Call.Args[0]), s.mem); ok && len(elems) > 0 {
+						call, blk, next := t, b, idx+1
+						var try func(s *sxState, i int)
+						try = func(s *sxState, i int) {
+							if i == len(elems)-1 {
+								s.regs[call] = elems[i]
+								runInstrs(s, fr, blk, next, k)
+								return
+							}
+							branch(s, sxOp{"==", []sxVal{elems[i], sxStr("")}}, func(ns *sxState, empty bool) {
+								if empty {
+									try(ns, i+1)
+								} else {
+									ns.regs[call] = elems[i]
+									runInstrs(ns, fr, blk, next, k)
+								}
+							})
+						}
+						try(s, 0)
+						return
 					}
 				}
 				if inline != nil && g != nil {
@@ -602,6 +687,15 @@ func sxImpliedBy(s *sxState, key string, val bool) []sxFact {
 	return nil
 }
 
+// sxCondKeyRec: sxCondKey of c under an outer negation.
+func sxCondKeyRec(c sxVal, neg bool) (string, bool, bool, bool) {
+	key, n2, isConst, cval := sxCondKey(c)
+	if isConst {
+		return "", false, true, cval != neg
+	}
+	return key, n2 != neg, false, false
+}
+
 // sxHelper: functions that are executed in place: function literals and
 // unexported functions/methods.
 func sxHelper(g *ssa.Function) bool { return g.Parent() != nil || !token.IsExported(g.Name()) }
@@ -645,6 +739,16 @@ func sxCondKey(c sxVal) (key string, neg bool, isConst bool, cval bool) {
 		cb, okB := b.(sxConst)
 		if okA && okB {
 			return "", false, true, (ca.key() == cb.key()) != neg
+		}
+		// x == true is x, x == false is !x
+		for i := 0; i < 2; i++ {
+			if k, ok := b.(sxConst); ok && k.c.Value != nil && k.c.Value.Kind() == constant.Bool {
+				if !constant.BoolVal(k.c.Value) {
+					neg = !neg
+				}
+				return sxCondKeyRec(a, neg)
+			}
+			a, b = b, a
 		}
 		if sxSame(a, b) {
 			return "", false, true, !neg
@@ -723,6 +827,120 @@ func sxFoldInt(op token.Token, x, y sxVal, t types.Type) sxVal {
 		return sxConst{ssa.NewConst(constant.MakeBool(constant.Compare(cx.c.Value, op, cy.c.Value)), types.Typ[types.Bool])}
 	}
 	return nil
+}
+
+var sxGlobalCache = map[*ssa.Global]sxVal{}
+
+// sxGlobalValue resolves a package-level variable of function or map type that
+// is initialised once (in the package initialiser) and never written again:
+// a function, a bound method value (isValid = pattern.MatchString) or a map
+// literal with constant keys (dispatch / lookup tables).  nil: not resolvable.
+func sxGlobalValue(g *ssa.Global) sxVal {
+	if v, ok := sxGlobalCache[g]; ok {
+		return v
+	}
+	sxGlobalCache[g] = nil
+	elem := g.Type().(*types.Pointer).Elem().Underlying()
+	_, isFunc := elem.(*types.Signature)
+	_, isMap := elem.(*types.Map)
+	if !isFunc && !isMap {
+		return nil
+	}
+	init := g.Pkg.Func("init")
+	if init == nil {
+		return nil
+	}
+	var val ssa.Value
+	n := 0
+	AllInstrs(init, func(in ssa.Instruction) {
+		if st, ok := in.(*ssa.Store); ok && st.Addr == ssa.Value(g) {
+			val, n = st.Val, n+1
+		}
+	})
+	if n != 1 {
+		return nil
+	}
+	// never written (nor the map updated / handed out) outside init
+	for _, m := range g.Pkg.Members {
+		f, ok := m.(*ssa.Function)
+		if !ok {
+			continue
+		}
+		for _, ff := range append([]*ssa.Function{f}, Anons(f)...) {
+			bad := false
+			AllInstrs(ff, func(in ssa.Instruction) {
+				if st, ok := in.(*ssa.Store); ok && st.Addr == ssa.Value(g) && ff != init {
+					bad = true
+				}
+				ld, ok := in.(*ssa.UnOp)
+				if !ok || ld.X != ssa.Value(g) || !isMap || ff == init {
+					return
+				}
+				for _, r := range *ld.Referrers() {
+					switch r.(type) {
+					case *ssa.Lookup, *ssa.DebugRef:
+					default:
+						bad = true // ranged over, updated, passed on …
+					}
+				}
+			})
+			if bad {
+				return nil
+			}
+		}
+	}
+	lit := func(v ssa.Value) sxVal {
+		switch u := v.(type) {
+		case *ssa.Const:
+			return sxConst{u}
+		case *ssa.Function:
+			return sxFunc{u}
+		case *ssa.ChangeType:
+			if f, ok := u.X.(*ssa.Function); ok {
+				return sxFunc{f}
+			}
+		case *ssa.MakeClosure:
+			cl := sxClosure{fn: u.Fn.(*ssa.Function), ssaBind: u.Bindings}
+			for _, b := range u.Bindings {
+				ld, ok := b.(*ssa.UnOp)
+				if !ok || ld.Op != token.MUL {
+					return nil
+				}
+				bg, ok := ld.X.(*ssa.Global)
+				if !ok {
+					return nil
+				}
+				cl.bindings = append(cl.bindings, sxInit{sxGlobal{bg}})
+			}
+			return cl
+		}
+		return nil
+	}
+	var out sxVal
+	switch u := val.(type) {
+	case *ssa.MakeMap:
+		ml := sxMapLit{g: g}
+		for _, r := range *u.Referrers() {
+			switch x := r.(type) {
+			case *ssa.MapUpdate:
+				k, v := lit(x.Key), lit(x.Value)
+				if _, isConst := k.(sxConst); !isConst || v == nil {
+					return nil
+				}
+				ml.keys, ml.vals = append(ml.keys, k), append(ml.vals, v)
+			case *ssa.Store, *ssa.DebugRef:
+			default:
+				return nil
+			}
+		}
+		out = ml
+	default:
+		if isFunc {
+			out = lit(val)
+		}
+	}
+	sxGlobalCache[g] = out
+	return out
 }
 
 // sxKnownNonNil: terms that cannot be nil (fresh errors, sentinel errors,
@@ -838,6 +1056,9 @@ func (s *sxState) load(addr sxVal, t types.Type) sxVal {
 	case sxIndexAddr:
 		if c, ok := a.idx.(sxConst); ok && c.c.Value != nil && c.c.Value.Kind() == constant.Int {
 			k, _ := constant.Int64Val(c.c.Value)
+			if l, isList := a.base.(sxList); isList && k >= 0 && int(k) < len(l.elems) {
+				return l.elems[k]
+			}
 			return sxFieldOf(s.load(a.base, nil), int(k), fmt.Sprintf("[%d]", k), t)
 		}
 		return sxOp{"index", []sxVal{s.load(a.base, nil), a.idx}}
@@ -900,6 +1121,14 @@ func (s *sxState) exec(in ssa.Instruction) {
 		x := s.eval(u.X)
 		switch u.Op {
 		case token.MUL:
+			if g, ok := x.(sxGlobal); ok {
+				if _, written := s.mem[x.key()]; !written {
+					if v := sxGlobalValue(g.g); v != nil {
+						s.regs[u] = v
+						break
+					}
+				}
+			}
 			s.regs[u] = s.load(x, u.Type())
 		case token.NOT:
 			s.regs[u] = sxOp{"!", []sxVal{x}}
@@ -982,7 +1211,7 @@ func (s *sxState) exec(in ssa.Instruction) {
 	case *ssa.MapUpdate:
 		s.updates = append(s.updates, sxMapUpdate{Map: s.eval(u.Map), Key: s.eval(u.Key), Val: s.eval(u.Value), NFacts: len(s.facts)})
 	case *ssa.MakeClosure:
-		c := sxClosure{fn: u.Fn.(*ssa.Function)}
+		c := sxClosure{fn: u.Fn.(*ssa.Function), ssaBind: u.Bindings}
 		for _, b := range u.Bindings {
 			c.bindings = append(c.bindings, s.eval(b))
 		}
@@ -1018,10 +1247,31 @@ func (s *sxState) call(c ssa.CallInstruction, deferred bool) sxVal {
 				}
 			}
 		}
+		if l, ok := arg.(sxList); ok {
+			return sxInt(int64(len(l.elems)))
+		}
+		if k, ok := arg.(sxConst); ok && k.c.Value == nil {
+			return sxInt(0) // len(nil)
+		}
 		if b.Name() == "len" && isStringType(cc.Args[0].Type()) {
 			return sxOp{"strlen", []sxVal{arg}}
 		}
 		return sxOp{b.Name(), []sxVal{arg}}
+	}
+	if b, ok := cc.Value.(*ssa.Builtin); ok && b.Name() == "append" && len(cc.Args) == 2 {
+		// append to a nil / known slice of literal elements: the element list stays known
+		base, more := s.eval(cc.Args[0]), s.eval(cc.Args[1])
+		var elems []sxVal
+		okBase := false
+		switch u := base.(type) {
+		case sxList:
+			elems, okBase = append(elems, u.elems...), true
+		case sxConst:
+			okBase = u.c.Value == nil
+		}
+		if add, ok := sxSliceElems(more, s.mem); ok && okBase {
+			return sxList{append(elems, add...)}
+		}
 	}
 	s.nCall[in]++
 	name := ""
@@ -1042,6 +1292,9 @@ func (s *sxState) call(c ssa.CallInstruction, deferred bool) sxVal {
 			rec.Name = fnFullName(f.fn)
 			if strings.HasPrefix(f.fn.Synthetic, "bound method wrapper") && len(f.bindings) == 1 {
 				rec.Recv = f.bindings[0]
+				if len(f.ssaBind) == 1 {
+					rec.RecvSSA = f.ssaBind[0]
+				}
 			}
 		case sxFunc:
 			rec.Callee = f.fn
@@ -1151,6 +1404,10 @@ func sxWalk(v sxVal, f func(sxVal) bool) {
 			}
 		case sxTuple:
 			for _, x := range u.vals {
+				rec(x, depth+1)
+			}
+		case sxList:
+			for _, x := range u.elems {
 				rec(x, depth+1)
 			}
 		}
